@@ -1,5 +1,60 @@
-Require Import Gengo.Base.Bytes Gengo.Model.Determinism.
-(* placeholder while the correspondence is brought up; replaced by the real statements *)
-Theorem C04_placeholder : oid nat [] [1] = [1].
-Proof. reflexivity. Qed.
-Print Assumptions C04_placeholder.
+(* C04 — generation is deterministic and a second run is a fixed point.
+   Statements only; proofs are in Proofs/Determinism.v.  The model (Model/Determinism.v) takes every
+   range over a Go map / sync.Map from an order oracle; [shuffles o] is all that is known about it. *)
+Require Import Gengo.Base.Bytes Gengo.Model.Determinism Gengo.Proofs.Determinism.
+From Coq Require Import Permutation Sorted.
+
+(* Same module, arguments and generators; ANY two behaviours of the runtime at every map range
+   (Defs, name table, tags, merged tags, generator files, stale files, import map, sum map,
+   registration order) and ANY two orders of the entrypoints: both runs fail, or both succeed with
+   the same content at every path (generated files and gengo.sum) and the same sequence of
+   GenerateType / GenerateAliasType calls. *)
+Theorem C04_order_independent :
+  forall render parse_sum (o1 o2 : oracle) a e1 e2 w gens f,
+    shuffles o1 -> shuffles o2 -> wf_args a -> wf_world w -> Permutation e1 e2 ->
+    out_equiv (run true true render parse_sum o1 a e1 w gens f)
+              (run true true render parse_sum o2 a e2 w gens f).
+Proof. exact run_order_independent. Qed.
+Print Assumptions C04_order_independent.
+
+(* gengo.sum is a function of the map, not of its iteration order: one line per entry, ascending. *)
+Theorem C04_sum_bytes_sorted :
+  forall (o : oracle) m, shuffles o -> NoDup (map fst m) ->
+    let es := sorted_entries o [bs "sum"] m in
+    sum_bytes o m = concat (map sum_line es)
+    /\ es = sorted_entries oid [bs "sum"] m
+    /\ Permutation es m
+    /\ map fst es = sort_strings (map fst m)
+    /\ StronglySorted (fun a b => bytes_leb a b = true) (map fst es)
+    /\ NoDup (map fst es).
+Proof. exact sum_bytes_sorted. Qed.
+Print Assumptions C04_sum_bytes_sorted.
+
+(* sort.Strings of a permutation is the same list (the lemma the sites rest on) *)
+Theorem C04_sort_perm_eq : forall l1 l2, Permutation l1 l2 -> sort_strings l1 = sort_strings l2.
+Proof. exact sort_perm_eq. Qed.
+Print Assumptions C04_sort_perm_eq.
+
+(* Before the repairs (DESIGN section 4 #16, and the order of MethodsOf): two behaviours of the
+   runtime on one module give different call sequences / different file contents. *)
+Theorem C04_order_independent_refuted_before_scope_fix :
+  log_of (run false true wit_render (fun _ => []) oid wit_args [bs "m/a"] wit_world wit_gens wit_fs)
+  <> log_of (run false true wit_render (fun _ => []) rev_oracle wit_args [bs "m/a"] wit_world wit_gens wit_fs).
+Proof. exact table_fold_refuted. Qed.
+Print Assumptions C04_order_independent_refuted_before_scope_fix.
+
+Theorem C04_order_independent_refuted_before_methods_fix :
+  file_of (run true false wit_render (fun _ => []) oid wit_args [bs "m/a"] wit_world wit_gens wit_fs) (bs "a", bs "zz_generated.rec.go")
+  <> file_of (run true false wit_render (fun _ => []) rev_oracle wit_args [bs "m/a"] wit_world wit_gens wit_fs) (bs "a", bs "zz_generated.rec.go").
+Proof. exact methods_order_refuted. Qed.
+Print Assumptions C04_order_independent_refuted_before_methods_fix.
+
+(* non-vacuity: the witness module is well formed, both oracles are legal, the run does something *)
+Example C04_hypotheses_satisfiable :
+  wf_world wit_world /\ wf_args wit_args /\ shuffles oid /\ shuffles rev_oracle
+  /\ log_of (run true true wit_render (fun _ => []) rev_oracle wit_args [bs "m/a"] wit_world wit_gens wit_fs)
+     = Some [(bs "m/a", bs "rec", [mk_call CType (bs "T") 306])].
+Proof.
+  split; [exact wit_world_wf|]. split; [constructor|]. split; [exact oid_shuffles|]. split; [exact rev_oracle_shuffles|].
+  exact (proj1 wit_run_nontrivial).
+Qed.
